@@ -2,6 +2,8 @@ import PqlModel.Props.C05
 import PqlModel.Props.C02Split
 import PqlModel.Props.C05SplitRefines
 import PqlModel.Props.C05LexStatement
+import PqlModel.Props.C02Semantics
+import PqlModel.Props.C02Statement
 #print axioms Pql.C05.C05_ends_with_semicolon
 #print axioms Pql.C05.C05_subqueryName_injective
 #print axioms Pql.C05.C05_chain_names_by_index
